@@ -80,6 +80,7 @@ func cmdRun(args []string) int {
 		return 2
 	}
 	printResult(res)
+	dumpForkSites()
 	for i, v := range res.Violations {
 		rf := buildReplay("X", spec, res.Params, v)
 		b, _ := json.MarshalIndent(rf, "", " ")
